@@ -35,6 +35,7 @@ func runC16(c *eng.Ctx) {
 	ruleRecoveredEntryIsTheLastAnswer(c)
 	c.Rule("R16.5", "K1")
 	rulePublishWaitsWhereTheAckDecides(c)
+	ruleAckInboxIsNotLimitedToOneMessage(c)
 	// ---- R16.1
 	c.Rule("R16.1", "K1")
 	if fn := c.Fn(cl + "newMessageSetFromProto"); fn != nil {
